@@ -258,3 +258,288 @@ def classes(case) -> List[str]:
 
 def in_scope(case) -> bool:
     return not eqlgen.has_quant(case["cond"])
+
+
+# ------------------------------------------------------------------ model / spec side
+def coq_model(cases: List[dict]) -> List[Tuple[int, list, List[list]]]:
+    """(in F10 as computed in Coq, model full trace, [trace_0 ..]) per case"""
+    vals = core.coq_values(PROP, HEADER, [f"let c := {eqlgen.g_case(c)} in SL [case_in_F10 c; c10_traces c]" for c in cases],
+                           chunk=60, tag="model")
+    return [(v[0], v[1][0], v[1][1]) for v in vals]
+
+
+def coq_spec(cases: List[dict], impls: List[dict]) -> List[Tuple[int, int]]:
+    """(in F10, Spec code of the implementation's logs) -- needs only the Spec files"""
+    ex = []
+    for c, i in zip(cases, impls):
+        ks = "[" + "; ".join(g_log(l) for l in i["ks"]) + "]"
+        ex.append(f"let c := {eqlgen.g_case(c)} in SL [case_in_F10 c; case_spec_code c {g_log(i['full'])} {ks}]")
+    vals = core.coq_values(PROP, SPEC_HEADER, ex, chunk=60, tag="spec")
+    return [(v[0], v[1]) for v in vals]
+
+
+SPEC_BITS = {1: "the rows / the log of an n-stopped run are not a prefix of the full run's",
+             2: "a domain was not consumed as the prefix 0,1,2,...",
+             4: "a domain was exhausted before any earlier-used variable moved past its first element "
+                "(more pulled than the reference lazy nested-loop enumerator needs)",
+             16: "construction (let/entity/set_of/and_/or_/not_/contains/operators) ran user code"}
+
+
+def explain(code: int) -> List[str]:
+    return [t for b, t in SPEC_BITS.items() if code & b]
+
+
+def first_diff(impl: dict, mfull, mks) -> Optional[dict]:
+    if canon_log(impl["full"]) != mfull:
+        return {"n": "all", "impl_log": canon_log(impl["full"]), "model_log": mfull}
+    for n, (a, b) in enumerate(zip(impl["ks"], mks)):
+        if canon_log(a) != b:
+            return {"n": n, "impl_log": canon_log(a), "model_log": b}
+    if len(impl["ks"]) != len(mks):
+        return {"n": "count", "impl_log": len(impl["ks"]), "model_log": len(mks)}
+    return None
+
+
+def judge(case: dict, impl: dict, spec: Optional[Tuple[int, int]], model) -> Dict[str, Any]:
+    """-> {"code": Spec code of the implementation (with bit 16 for a noisy construction), "diff": first log that differs
+    from the model's (or None), "f10": bool}"""
+    if "exc" in impl:
+        return {"code": 32, "diff": None, "f10": bool(spec[0]) if spec else False, "exc": impl["exc"]}
+    code = spec[1] | (16 if impl["build"] else 0)
+    diff = first_diff(impl, model[1], model[2]) if model is not None else None
+    return {"code": code, "diff": diff, "f10": bool(spec[0])}
+
+
+def shrink(case: dict, model_ok: bool, bad) -> dict:
+    cur = case
+    for _ in range(8):
+        cands = []
+        for c in eqlcheck.candidates(cur):
+            try:
+                eqlgen.g_case(c)
+                cands.append(normalise(c))
+            except Exception:  # noqa
+                pass
+        cands = cands[:40]
+        if not cands:
+            break
+        impls = run_impl_many(cands, chunk=5)
+        ok = [k for k, i in enumerate(impls) if "exc" not in i]
+        specs = dict(zip(ok, coq_spec([cands[k] for k in ok], [impls[k] for k in ok])))
+        models = dict(zip(ok, coq_model([cands[k] for k in ok]))) if model_ok else {}
+        nxt = None
+        for k, c in enumerate(cands):
+            j = judge(c, impls[k], specs.get(k), models.get(k))
+            if bad(c, j):
+                nxt = c
+                break
+        if nxt is None:
+            break
+        cur = nxt
+    return cur
+
+
+def run_python_witness(code: str):
+    return eqlcheck.run_python_witness(code)
+
+
+# ------------------------------------------------------------------ the check
+def run(tier: str, seed: int, replay=None) -> int:
+    rep = Report(PROP, tier, seed, "other")
+    rep.trusted = core.COQ_TRUSTED + [
+        "hand-written model Eql/Trace.v of the generator pipeline of symbolic.py (Variable / Literal / Attribute / Comparator / AND / "
+        "ElseIf / Union / Not, QueryObjectDescriptor.evaluate_selected_variables with itertools.product, An._evaluate__) and of the "
+        "domain cache hashed_data.py HashedIterable.__iter__ (replay of the cached elements, then the shared one-shot generator), "
+        "tied by comparing event logs through the public API",
+        "harness/c10.py: logging one-shot generators, logging attribute descriptors (classes LP / LT), log canonicaliser; "
+        "harness/eqlgen.py (case generator, Gallina emission)",
+        "CPython generator protocol, itertools.product, filter/map laziness: not modelled, only observed through the logs",
+    ]
+    rep.assume = [
+        "LEVEL partial: the theorems bound the demand of the MODEL; that the real engine runs user code exactly when the model "
+        "says is established by the event-for-event comparison on generated queries, not by proof",
+        "vocabulary: variables over explicit domains, literals (ints, int lists), attribute chains, comparisons, contains/in_, and_, or_, "
+        "not_, entity/set_of; quantifier-free (exists / for_all are eager consumers and are not modelled here); predicates, "
+        "flatten, indexing, calls, rule trees are not modelled",
+        "domains are duplicate-free (a repeated element is yielded twice on the first enumeration and once afterwards: C03's finding) "
+        "and every variable has its own generator; queries are tree-shaped (no node object used twice)",
+        "one consumer per query: iterators resumed in an interleaved fashion are C03's subject",
+        "the demand bound (Spec bit 4) is relative to a single-pass nested-loop enumerator and is applied to union-free conditions",
+    ]
+    rep.rule = ("seeded random queries (harness/eqlgen.py, profile c01, quantifier-free): 1-3 variables over object / value-equal-twin / int "
+                "domains of 0-4 elements given as logging one-shot generators, conditions of depth <= 3, 1-3 selected expressions; "
+                "every query is rebuilt and run for EVERY n = 0 .. rows+1 and in full; one evaluation = one (query, n) pair; "
+                "non-trivial = the query has a condition and n >= 1 and at least one domain element was pulled")
+    ok_spec, log = core.coq_make(["Base/Sx.vo", "Eql/TraceSpec.vo"])
+    rep.oblige("build:spec", ok_spec, "" if ok_spec else core.first_error(log))
+    model_ok = core.standard_proof_steps(rep, PROP, ["Props/C10.vo"])
+    if not ok_spec:
+        return rep.finish()
+
+    findings = core.load_findings(PROP)
+    open_classes = {f.cls: f for f in findings if f.kind == "open"}
+
+    # ---- cases
+    cases: List[dict] = []
+    origin: List[str] = []
+    if replay is not None and "case" in replay:
+        cases.append(normalise(replay["case"]))
+        origin.append("replay")
+    elif replay is None:
+        cdir = core.VERIF / "corpus" / PROP
+        for f in sorted(cdir.glob("*.json")) if cdir.is_dir() else []:
+            d = json.loads(f.read_text())
+            if "case" in d:
+                cases.append(normalise(d["case"]))
+                origin.append(f"corpus:{f.name}")
+        n = 420 if tier == "quick" else 6000
+        rng = core.Rng(seed * 1000003 + 17)
+        i = 0
+        while len(cases) < n + len([o for o in origin if o.startswith("corpus")]):
+            c = normalise(eqlgen.gen_case(rng.fork(i), "c01"))
+            i += 1
+            if in_scope(c):
+                cases.append(c)
+                origin.append(f"gen:{i - 1}")
+
+    impls = run_impl_many(cases)
+    ran = [k for k, i in enumerate(impls) if "exc" not in i]
+    specs: Dict[int, Tuple[int, int]] = dict(zip(ran, coq_spec([cases[k] for k in ran], [impls[k] for k in ran])))
+    models: Dict[int, Any] = {}
+    if model_ok:
+        try:
+            models = dict(zip(range(len(cases)), coq_model(cases)))
+        except core.CoqEvalError as e:
+            rep.oblige("correspondence:model-evaluates", False, str(e)[:300])
+            model_ok = False
+
+    dist: Dict[str, Any] = {"queries": len(cases), "pairs": 0, "in_F10": 0, "K_product": 0, "K_union": 0, "rows_ge_2": 0,
+                            "log_eq_model_pairs": 0, "impl_exception": 0, "max_log_len": 0}
+    ops: Dict[str, int] = {}
+    kf_counts: Dict[str, int] = {}
+    bad: List[Tuple[dict, dict, str]] = []
+    tie_bad: List[Tuple[dict, dict, str]] = []
+    for k, (c, o, i) in enumerate(zip(cases, origin, impls)):
+        j = judge(c, i, specs.get(k), models.get(k))
+        cls = classes(c)
+        for cl in cls:
+            dist[cl] += 1
+        for kk, v in eqlgen.stats(c).items():
+            ops[kk] = ops.get(kk, 0) + v
+        if "exc" in i:
+            dist["impl_exception"] += 1
+            bad.append((c, j, o))
+            continue
+        dist["in_F10"] += int(j["f10"])
+        nrows = len(i["ks"]) - 2
+        dist["rows_ge_2"] += int(nrows >= 2)
+        dist["max_log_len"] = max(dist["max_log_len"], len(i["full"]))
+        for n, l in enumerate(i["ks"]):
+            dist["pairs"] += 1
+            rep.count(json.dumps([c, n], sort_keys=True), c["cond"] is not None and n >= 1 and any(e[0] == 0 for e in l))
+            if k in models and n < len(models[k][2]) and canon_log(l) == models[k][2][n]:
+                dist["log_eq_model_pairs"] += 1
+        if j["code"] == 0:
+            if j["diff"] is not None:
+                tie_bad.append((c, j, o))       # meets the Spec predicates but not the model's log: the tie is broken
+            continue
+        # the implementation's logs miss the Spec
+        if (not j["f10"]) and j["code"] == 4 and j["diff"] is None and model_ok and "K_product" in cls and "K_product" in open_classes:
+            kf_counts["K_product"] = kf_counts.get("K_product", 0) + 1
+            continue
+        bad.append((c, j, o))
+
+    def is_bad(c, j):
+        if j["code"] == 0:
+            return False
+        return not ((not j["f10"]) and j["code"] == 4 and j["diff"] is None and "K_product" in classes(c) and "K_product" in open_classes)
+
+    for c, j, o in bad[:3]:
+        small = c
+        try:
+            small = shrink(c, model_ok, is_bad)
+        except Exception as e:  # noqa
+            rep.note(f"shrinking failed: {e}")
+        i2 = run_impl(small)
+        s2 = coq_spec([small], [i2])[0] if "exc" not in i2 else None
+        m2 = coq_model([small])[0] if model_ok else None
+        j2 = judge(small, i2, s2, m2)
+        rep.violation({"kind": "counterexample", "origin": o, "case": small, "original_case": c, "classes": classes(small),
+                       "in_F10": j2["f10"], "spec_code": j2["code"], "spec_misses": explain(j2["code"]) + ([f"raised {j2.get('exc')}"] if "exc" in j2 else []),
+                       "impl": {kk: (canon_log(v) if kk in ("full", "build") else [canon_log(l) for l in v] if kk == "ks" else v) for kk, v in i2.items()},
+                       "model": {"full": m2[1], "ks": m2[2]} if m2 else None, "first_difference_from_model": j2["diff"],
+                       "python": snippet(small, None),
+                       "explanation": "events: [0,x,i] i-th element of variable x's domain pulled from its one-shot generator; [1,x] that generator "
+                                      "asked again and finished; [2,obj,attr] attribute read; [3,row] result handed out. ks[n] = log after pulling n results "
+                                      "from an(...).evaluate() of a freshly built query; build = events during construction (must be empty)"})
+    if len(bad) > 3:
+        rep.note(f"{len(bad) - 3} further cases missing the Spec not reported individually")
+
+    def is_tie_bad(c, j):
+        return j["code"] == 0 and j["diff"] is not None
+
+    if tie_bad:
+        c, j, o = tie_bad[0]
+        small = c
+        try:
+            small = shrink(c, model_ok, is_tie_bad)
+        except Exception as e:  # noqa
+            rep.note(f"shrinking failed: {e}")
+        i2 = run_impl(small)
+        m2 = coq_model([small])[0]
+        d2 = first_diff(i2, m2[1], m2[2]) if "exc" not in i2 else None
+        rep.oblige("correspondence:model", False, f"{len(tie_bad)} queries whose event log differs from the model's (first: {o})")
+        rep.violation({"kind": "counterexample", "origin": o, "case": small, "original_case": c, "in_F10": j["f10"],
+                       "first_difference_from_model": d2 or j["diff"], "python": snippet(small, (d2 or j["diff"])["n"] if isinstance((d2 or j["diff"])["n"], int) else None),
+                       "explanation": "the real engine ran user code at other moments than the model the C10 theorems are about "
+                                      "(events: [0,x,i] pull, [1,x] generator finished, [2,obj,attr] getattr, [3,row] result); the log still meets the "
+                                      "Spec predicates on logs (prefix, order, exhaustion), so either the evaluation order changed harmlessly and "
+                                      "Eql/Trace.v must follow it, or the engine now reads ahead / evaluates eagerly in a way only the "
+                                      "event-for-event comparison sees"})
+    elif model_ok:
+        rep.oblige("correspondence:model", True, f"{dist['log_eq_model_pairs']} (query, n) logs equal to the model's trace_n event for event")
+
+    # ---- known findings: replay the witnesses
+    for f in findings:
+        try:
+            w = json.loads((core.VERIF / f.witness).read_text())
+        except Exception as e:  # noqa
+            rep.oblige(f"witness:{f.fid}", False, f"cannot read {f.witness}: {e}")
+            continue
+        if "case" in w:
+            wc = normalise(w["case"])
+            i = run_impl(wc)
+            got = {"exc": i["exc"]} if "exc" in i else {"code": coq_spec([wc], [i])[0][1] | (16 if i["build"] else 0),
+                                                         "first": canon_log(i["ks"][1]) if len(i["ks"]) > 1 else []}
+            fails = got.get("code", 32) != 0
+            as_recorded = got == w.get("impl_recorded")
+            py = snippet(wc, 1)
+        else:
+            got = run_python_witness(w["python"])
+            fails = got != w["spec"]
+            as_recorded = got == w.get("impl_recorded")
+            py = w["python"]
+        if f.kind == "open":
+            if fails and as_recorded:
+                rep.known(f)
+                rep.extra.setdefault("known_finding_instances", {})[f.fid] = kf_counts.get(f.cls, 0)
+            elif fails:
+                rep.violation({"kind": "counterexample", "finding": f.fid, "witness": f.witness, "impl": got,
+                               "impl_recorded": w.get("impl_recorded"), "spec": w.get("spec"), "python": py,
+                               "explanation": "the witness of a listed finding now fails in a different way than recorded"})
+            else:
+                rep.note(f"finding {f.fid} no longer reproduces (witness now meets the Spec)")
+        elif fails:
+            rep.violation({"kind": "counterexample", "finding": f.fid, "witness": f.witness, "impl": got, "spec": w.get("spec"),
+                           "python": py, "explanation": f"regression: defect repaired in {f.commit} is back"})
+
+    if replay is not None and "python" in replay and "case" not in replay:
+        got = run_python_witness(replay["python"])
+        if got != replay.get("spec"):
+            rep.violation({"kind": "counterexample", "impl": got, "spec": replay.get("spec"), "python": replay["python"]})
+
+    rep.extra["distribution"] = dict(dist, operators=ops, known_finding_instances=kf_counts)
+    step = max(1, len(cases) // 5)
+    rep.samples = [{"origin": o, "case": c, "log_after_1": canon_log(i["ks"][1]) if "ks" in i and len(i["ks"]) > 1 else None}
+                   for c, o, i in list(zip(cases, origin, impls))[::step]][:5]
+    return rep.finish()
